@@ -144,9 +144,8 @@ func GenMsg(r *sim.Rand, token string, o ShapeOpts) MsgSpec {
 		return ContentSpec{Data: data, Chunks: GenChunks(r)}
 	}
 	nparts := 1 + r.Intn(o.MaxAlt+1)
-	if r.Chance(1, 12) && !o.StableOnly {
-		// a message without body part renders its sole file at top level, where the order of the
-		// file's header fields follows Go's map iteration order (not repeatable; C11's subject)
+	if r.Chance(1, 12) {
+		// a message without body part renders its sole file at top level
 		nparts = 0
 	}
 	for i := 0; i < nparts; i++ {
